@@ -1,4 +1,5 @@
 import XPathV.Lemmas.Facts
+import XPathV.Generated.ExtraFacts
 import XPathV.Model.Conc
 /-!
 # C05 — one compiled expression may be used from many goroutines at once (partial)
@@ -34,5 +35,12 @@ theorem concurrent_equals_sequential (fa fb : Model.Conc.Loc → Bool) (hd : ∀
     (hi : Model.Conc.Interleave as bs cs) :
     ∀ s, ∀ l, fa l = true → Model.Conc.runSeq cs s l = Model.Conc.runSeq as s l :=
   Model.Conc.interleave_independent fa fb hd as bs cs ha hb hi
+
+/-- T0: a function evaluates a per-call clone of its argument query (`func.go: functionArgs`); the only dynamic type
+used in place is `functionQuery`, which has no iteration state of its own and whose callback clones *its* arguments
+when it runs (an exemption of a type that keeps state — `transformFunctionQuery` behind `reverse()`, say — makes
+evaluations share that state) -/
+theorem function_arguments_cloned_per_call :
+    Generated.functionArgsExempt = ["functionQuery"] ∧ Generated.functionArgsClonesOtherwise = true := by decide
 
 end XPathV.Theorems.C05
